@@ -22,6 +22,9 @@ import drive_denoise as dd
 
 TH_SESSION = ['RB.Denoise.c20_restore_once', 'RB.Denoise.c20_noD_silent',
               'RB.Denoise.c20_restore_after_processes_partial', 'RB.Denoise.c20_no_result_no_restore']
+TH_PAR = ['RB.Denoise.c20_par_restore_once', 'RB.Denoise.c20_interleave_perm']
+TH_DPY = ['RB.Denoise.c20_denoise_restore_undoes', 'RB.Denoise.c20_denoise_roundtrip_standard',
+          'RB.Denoise.c20_denoise_restore_only_to_standard', 'RB.Denoise.c20_denoise_shield_reset_only_if_reported']
 TH_WRAP = ['RB.Denoise.c20_wrap_spec', 'RB.Denoise.c20_wrap_none', 'RB.Denoise.c20_caps_as_reported']
 TH_SHIELD = ['RB.Denoise.c20_shield_range', 'RB.Denoise.c20_shield_range_real', 'RB.Denoise.c20_shieldLo_is_floor_log',
              'RB.Denoise.c20_shield_within_cores']
@@ -43,8 +46,14 @@ def all_reports():
 
 
 def make_config(sc):
+    b1, b2 = {}, ({'extra_args': '%z'} if sc['path'] == 'ui_error' else {})
+    # runs of one session with *different* env maps (also: none, and the inherited one)
+    for name, d in (('B1', b1), ('B2', b2)):
+        e = (sc.get('bench_env') or {}).get(name)
+        if e is not None:
+            d['env'] = dict(e)
     suite = {'gauge_adapter': 'RebenchLog', 'command': 'h %(benchmark)s %(invocation)s',
-             'benchmarks': ['B1', {'B2': {'extra_args': '%z'}} if sc['path'] == 'ui_error' else 'B2']}
+             'benchmarks': [{'B1': b1} if b1 else 'B1', {'B2': b2} if b2 else 'B2']}
     cfg = {'default_experiment': 'T', 'default_data_file': 't.data',
            'runs': {'invocations': 2, 'min_iteration_time': 0},
            'benchmark_suites': {'S': suite}, 'executors': {'E': {'path': '.', 'executable': 'exe'}},
@@ -57,6 +66,24 @@ def make_config(sc):
         cfg['experiments']['T']['action'] = 'profile'
         cfg['executors']['E']['profiler'] = {'perf': {}}
     return cfg
+
+
+def env_of_start(sc, text):
+    """the configured env map of the run a started command belongs to"""
+    for name in ('B1', 'B2'):
+        if (' h %s ' % name) in text + ' ':
+            e = (sc.get('bench_env') or {}).get(name)
+            return dict(e) if e is not None else dict(sc['env'])
+    return dict(sc['env'])
+
+
+def gen_bench_env(rng):
+    x = rng.random()
+    if x < 0.25:
+        return None
+    pool = [None, {}, {'A': '1'}, {'B': '2', 'A': '1'}, {'LANG': 'C', 'JAVA_HOME': '/opt/j', 'X_1': 'a b'},
+            {'ONLY_HERE': 'x'}, {'Z': '', 'A': '9'}]
+    return {'B1': rng.choice(pool), 'B2': rng.choice(pool)}
 
 
 def make_script(sc):
@@ -141,15 +168,16 @@ def trace_oracle(ck, inp, sc, trace, sudo, ending, num_cores):
         ri = max(i for i, t in enumerate(trace) if t['t'] == 'restore')
         late_starts = [t for t in trace[ri:] if t['t'] == 'start']
         if late_starts:
-            ck.oracle_fail('restore_after_last_start', inp, {'trace': trace}, {'path': sc['path']})
+            ck.oracle_fail('restore_after_last_start', inp, {'trace': trace},
+                           dict({'path': sc['path']}, **({'scheduler': 'parallel'} if sc['kind'] == 'parallel' else {})))
         open_at_restore = set(t['i'] for t in trace[:ri] if t['t'] == 'start') - \
             set(t['i'] for t in trace[:ri] if t['t'] == 'stop')
         if open_at_restore:
             ck.oracle_fail('restore_after_processes_ended', inp,
                            {'running_at_restore': sorted(open_at_restore), 'trace': trace},
-                           {'path': 'interrupt' if sc['path'] in ('interrupt', 'terminate') else sc['path'],
-                            'cause': 'child-not-killed' if not any(t['t'] == 'kill' for t in trace[:ri])
-                            else 'other'})
+                           dict({'path': 'interrupt' if sc['path'] in ('interrupt', 'terminate') else sc['path'],
+                                 'cause': 'child-not-killed' if not any(t['t'] == 'kill' for t in trace[:ri])
+                                 else 'other'}, **({'scheduler': 'parallel'} if sc['kind'] == 'parallel' else {})))
         r = [t for t in trace if t['t'] == 'restore'][0]
         if r['without_nice'] != (not granted(sc['report'], 'nice')) or \
                 r['without_shielding'] != (not granted(sc['report'], 'shield')):
@@ -211,13 +239,16 @@ def check_sessions(ck, scenarios):
         # ------------------------------------------------ oracle
         trace_oracle(ck, inp, sc, trace, [(e[1], e[2]) for e in sudo], ending, sc['num_cores'])
         # wrapping of every benchmark command
-        env = sc['env']
-        prefix = expected_prefix(sc, env, denoise_path)
+        seen_keysets = set()
         for e in starts:
             text = e[2]
             if 'perf report' in text:
                 ck.count('start:perf-report-step')
                 continue
+            # "forwarding exactly the run's configured environment variables": per start
+            env = env_of_start(sc, text)
+            seen_keysets.add(tuple(env.keys()))
+            prefix = expected_prefix(sc, env, denoise_path)
             words = shlex.split(text)
             inner_at = (words.index('--') + 1) if ('--' in words and words[0] == 'sudo') else 0
             if words[:inner_at] != prefix:
@@ -225,12 +256,19 @@ def check_sessions(ck, scenarios):
                                {'nice': granted(sc['report'], 'nice'), 'shield': granted(sc['report'], 'shield')})
             if (e[3] or {}) != env:
                 ck.oracle_fail('env_forwarded', inp, {'expected': env, 'observed': e[3]})
+            pe = [w_ for w_ in words[:inner_at] if w_.startswith('--preserve-env=')]
+            want_pe = ['--preserve-env=' + ','.join(env.keys())] if (env and prefix) else []
+            if pe != want_pe:
+                ck.oracle_fail('env_forwarded', inp, {'expected': want_pe, 'observed': pe, 'command': text},
+                               {'what': 'preserve-env list'})
             inner = text.split(' exec -- ', 1)[1] if (text.startswith('sudo ') and ' exec -- ' in text) else text
             wrap_ops.append({'op': 'c20.wrap', 'use_nice': None, 'use_shielding': None,
                              'env_keys': list(env.keys()), 'profiling': sc['profiling'],
                              'cset': sc['cset'], 'denoise': denoise_path, 'num_cores': str(sc['num_cores']),
                              'cmd': inner})
             wrap_recs.append((inp, text, len(sess_ops)))
+        if len(seen_keysets) > 1:
+            ck.count('session:runs-with-different-env-keys')
         # ------------------------------------------------ model
         if n_restore:
             ri = max(i for i, t in enumerate(trace) if t['t'] == 'restore')
@@ -348,6 +386,7 @@ def check_cli(ck, scenarios):
         idx_of = {}
         stopped = set()
         trace, sudo, execs = [], [], []
+        alive_at_restore = set()
         for e in r['events']:
             if e[0] == 'sudo':
                 a = ['sudo'] + e[1:]
@@ -374,6 +413,18 @@ def check_cli(ck, scenarios):
                 if e[1] in idx_of and e[1] not in stopped:
                     stopped.add(e[1])
                     trace.append({'t': 'stop', 'i': idx_of[e[1]]})
+            elif e[0] == 'alive-at-restore':
+                alive_at_restore.add(e[1])
+        # a process that was killed directly (commands not wrapped) cannot log its end; the fake
+        # sudo noted at `restore` which processes were still running: the others had ended before
+        if any(t['t'] == 'restore' for t in trace):
+            ri = min(i for i, t in enumerate(trace) if t['t'] == 'restore')
+            for pid, n_ in idx_of.items():
+                if pid not in stopped and pid not in alive_at_restore and \
+                        any(t['t'] == 'start' and t['i'] == n_ for t in trace[:ri]):
+                    trace.insert(ri, {'t': 'stop', 'i': n_})
+                    stopped.add(pid)
+                    ri += 1
         num_cores = None
         for v, a in sudo:
             if v == 'minimize' and '--num-cores' in a:
@@ -390,22 +441,28 @@ def check_cli(ck, scenarios):
                             'cause': 'child-not-killed' if not r['killed'] else 'other'})
         # wrapping as seen by the fake sudo, env as seen by the benchmark process
         sc2 = dict(sc, num_cores=num_cores)
-        prefix = expected_prefix(sc2, r['run_env'], denoise_path)
+
+        def env_for(words):
+            return r['run_env_b2'] if 'B2' in words else r['run_env']
+        wrapped = bool(expected_prefix(sc2, r['run_env'], denoise_path))
         n_starts = sum(1 for t in trace if t['t'] == 'start')
-        if prefix and len(execs) != n_starts:
+        if wrapped and len(execs) != n_starts:
             ck.oracle_fail('wrap_as_granted', inp, {'wrapped_starts': len(execs), 'starts': n_starts},
                            {'what': 'count'})
-        if not prefix and execs:
+        if not wrapped and execs:
             ck.oracle_fail('wrap_as_granted', inp, {'unexpected_sudo_exec': execs[:2]}, {'what': 'not-granted'})
         for a in execs:
             k = a.index('--')
+            prefix = expected_prefix(sc2, env_for(a[k + 1:]), denoise_path)
             if a[:k + 1] != prefix:
                 ck.oracle_fail('wrap_as_granted', inp, {'expected_prefix': prefix, 'observed': a},
                                {'nice': granted(rep, 'nice'), 'shield': granted(rep, 'shield')})
+        start_args = dict((int(e[2]), e[3:]) for e in r['events'] if e[0] == 'start')
         for n, env in r['envs'].items():
             got = dict((k, v) for k, v in env.items() if k not in ('PWD', 'OLDPWD', 'SHLVL', '_'))
-            if got != r['run_env']:
-                ck.oracle_fail('env_forwarded', inp, {'expected': r['run_env'], 'observed': got})
+            want = env_for(start_args.get(n, []))
+            if got != want:
+                ck.oracle_fail('env_forwarded', inp, {'expected': want, 'observed': got, 'args': start_args.get(n)})
         # model
         if any(t['t'] == 'restore' for t in trace):
             ri = max(i for i, t in enumerate(trace) if t['t'] == 'restore')
@@ -424,6 +481,247 @@ def check_cli(ck, scenarios):
                         {'trace': head, 'ending': ending}, ans, TH_SESSION)
 
 
+# ------------------------------------------------------ denoise.py itself
+STANDARD = {'no_turbo': '0', 'perf_max_percent': '25', 'perf_sample_rate': '50000', 'perf_paranoid': '3',
+            'shield': 'off'}      # docs/denoise.md: "the presumed standard state"; governors: powersave
+
+
+def std_value(setting):
+    return 'powersave' if setting.startswith('governor:') else STANDARD[setting]
+
+
+def simulate(acts, host, state):
+    """the effect of a list of observed actions on a dictionary system"""
+    st = dict(state)
+    for a in acts:
+        if a['t'] == 'write':
+            st[a['s']] = a['v']
+        elif a['t'] == 'shield_on' and host['shield_activates']:
+            st['shield'] = 'on'
+        elif a['t'] == 'shield_reset' and host['shield_resets']:
+            st['shield'] = 'off'
+    return st
+
+
+def gen_denoise_py_cases(ck, n_cases, exhaustive=False):
+    rng = ck.rng
+    out = []
+    if exhaustive:
+        for bits in itertools.product([True, False], repeat=11):
+            (nt, mp, sr, pa, cs, act, rst, cn, nice, shield, prof) = bits
+            n = rng.choice([1, 2, 4, 8])
+            gov = [rng.random() < 0.85 for _ in range(n)]
+            out.append({'kind': 'denoise_py', 'n': n, 'nice': nice, 'shield': shield, 'profiling': prof,
+                        'host': {'governor_writable': gov, 'no_turbo_writable': nt, 'max_percent_writable': mp,
+                                 'sample_rate_writable': sr, 'paranoid_writable': pa, 'has_cset': cs,
+                                 'shield_activates': act, 'shield_resets': rst, 'can_nice': cn},
+                        'initial': rng.choice(['standard', 'other'])})
+        return out
+    for _ in range(n_cases):
+        n = rng.choice([1, 2, 3, 4, 8, 16, 64])
+        allw = rng.random() < 0.4
+        gov = [True] * n if allw else [rng.random() < 0.9 for _ in range(n)]
+
+        def w():
+            return True if allw else rng.random() < 0.75
+        out.append({'kind': 'denoise_py', 'n': n, 'nice': rng.random() < 0.5, 'shield': rng.random() < 0.6,
+                    'profiling': rng.random() < 0.5,
+                    'host': {'governor_writable': gov, 'no_turbo_writable': w(), 'max_percent_writable': w(),
+                             'sample_rate_writable': w(), 'paranoid_writable': w(), 'has_cset': rng.random() < 0.7,
+                             'shield_activates': rng.random() < 0.7, 'shield_resets': rng.random() < 0.85,
+                             'can_nice': rng.random() < 0.7},
+                    'initial': rng.choice(['standard', 'other'])})
+    return out
+
+
+def check_denoise_py(ck, cases):
+    import drive_denoise_py as dpy
+    ops, recs = [], []
+    for sc in cases:
+        host, n = sc['host'], sc['n']
+        inp = dict(sc)
+        m = dpy.call('minimize', host, n, sc['nice'], sc['shield'], sc['profiling'])
+        if 'crash' in m:
+            ck.oracle_fail('denoise_py_no_crash', inp, m, {'step': 'minimize'})
+            continue
+        reported_shield = bool(m['result'].get('shielding'))
+        r = dpy.call('restore', host, n, shield=reported_shield)
+        if 'crash' in r:
+            ck.oracle_fail('denoise_py_no_crash', inp, r, {'step': 'restore'})
+            continue
+        ck.impl_traces += 2
+        ck.count('denoise.py:n=%d' % n if n <= 4 else 'denoise.py:n>4')
+        ck.count('denoise.py:profiling' if sc['profiling'] else 'denoise.py:benchmarking')
+        strange = [a for a in m['acts'] + r['acts'] if a['t'].startswith('unexpected')]
+        if strange:
+            ck.oracle_fail('denoise_py_only_documented_settings', inp, {'acts': strange})
+        # ---- oracle: restore brings back the standard value of everything minimize changed
+        settings = ['governor:%d' % i for i in range(n + 2)] + list(STANDARD)
+        if sc['initial'] == 'standard':
+            s0 = dict((k, std_value(k)) for k in settings)
+        else:
+            s0 = dict((k, 'x-' + k) for k in settings)
+        s1 = simulate(m['acts'], host, s0)
+        s2 = simulate(r['acts'], host, s1)
+        if host['shield_resets']:
+            bad = [k for k in settings if s1[k] != s0[k] and s2[k] != std_value(k)]
+            if bad:
+                ck.oracle_fail('restore_undoes_minimize', inp, {'not_restored': bad, 'minimize': m['acts'],
+                                                                'restore': r['acts']}, {'setting': bad[0].split(':')[0]})
+            if sc['initial'] == 'standard' and s2 != s0:
+                ck.oracle_fail('restore_undoes_minimize', inp, {'after': s2, 'minimize': m['acts'],
+                                                                'restore': r['acts']}, {'setting': 'roundtrip'})
+        nonstd = [a for a in r['acts'] if a['t'] == 'write' and a['v'] != std_value(a['s'])]
+        if nonstd:
+            ck.oracle_fail('restore_only_to_standard', inp, {'writes': nonstd})
+        if not reported_shield and any(a['t'] == 'shield_reset' for a in r['acts']):
+            ck.oracle_fail('restore_only_to_standard', inp, {'restore': r['acts']}, {'what': 'shield reset unreported'})
+        # ---- model
+        ops.append({'op': 'c20.denoise_minimize', 'host': host, 'n': n, 'nice': sc['nice'], 'shield': sc['shield'],
+                    'profiling': sc['profiling']})
+        ops.append({'op': 'c20.denoise_restore', 'host': host, 'n': n, 'shield': reported_shield})
+        recs.append((inp, m, r))
+        ck.case(nontrivial_key=('dpy', json.dumps(sc, sort_keys=True)),
+                sample={'denoise.py': [a['t'] for a in m['acts']][:6]} if len(recs) % 150 == 1 else None)
+    answers = ck.model(ops)
+    for i, (inp, m, r) in enumerate(recs):
+        am, ar = answers[2 * i], answers[2 * i + 1]
+        om = {'acts': m['acts'],
+              'result': {'governor_ok': m['result']['scaling_governor'] != 'failed',
+                         'no_turbo_ok': m['result']['no_turbo'] != 'failed',
+                         'perf_ok': m['result']['perf_event_max_sample_rate'] != 'failed',
+                         'can_nice': bool(m['result']['can_set_nice']), 'shielding': bool(m['result']['shielding'])}}
+        orr = {'acts': r['acts'],
+               'result': {'governor_ok': r['result']['scaling_governor'] != 'failed',
+                          'no_turbo_ok': r['result']['no_turbo'] != 'failed',
+                          'perf_ok': r['result']['perf_event_max_sample_rate'] != 'failed',
+                          'shielding': bool(r['result']['shielding'])}}
+        if am != om:
+            ck.disagree('c20.denoise_minimize: _minimize_noise vs RB.Denoise.minimizeActs', inp, om, am, TH_DPY)
+        if ar != orr:
+            ck.disagree('c20.denoise_restore: _restore_standard_settings vs RB.Denoise.restoreActs', inp, orr, ar, TH_DPY)
+
+
+# ------------------------------------------------------- parallel scheduler
+def gen_parallel_scenarios(ck, n):
+    rng = ck.rng
+    reps = [r for r in all_reports() if r['kind'] == 'json' and r['others'] and 'failed' not in r['others'][:1]]
+    out = []
+    for i in range(n):
+        n_bench = rng.randint(3, 7)
+        inv = rng.randint(1, 2)
+        total = n_bench * inv
+        out.append({'kind': 'parallel', 'report': rng.choice(reps), 'path': 'interrupt' if i % 4 != 3 else 'ok',
+                    'profiling': False, 'no_denoise': False, 'env': rng.choice(ENVS), 'cset': None,
+                    'num_cores': rng.choice([2, 4, 64]), 'cpu_count': rng.choice([5, 8, 10]),
+                    'n_bench': n_bench, 'invocations': inv, 'at': rng.randint(1, total)})
+    return out
+
+
+def canon_abort(trace, p):
+    """the order in which the running processes are killed is the order in which the worker
+    threads registered them, which the log cannot see: sort the block between the interrupt
+    (after `p` body events) and restore"""
+    if p is None or not any(t['t'] == 'restore' for t in trace):
+        return trace
+    ri = max(i for i, t in enumerate(trace) if t['t'] == 'restore')
+    block = sorted(trace[1 + p:ri], key=lambda t: (t['i'], t['t'] == 'stop'))
+    return trace[:1 + p] + block + trace[ri:]
+
+
+def check_parallel(ck, scenarios):
+    import signal
+    import threading
+    import time
+    ops, recs = [], []
+    for sc in scenarios:
+        _counter[0] += 1
+        wd = os.path.join(ck.scratch, 'p%d' % _counter[0])
+        os.makedirs(wd)
+        cfg = {'default_experiment': 'T', 'default_data_file': 't.data',
+               'runs': {'invocations': sc['invocations'], 'min_iteration_time': 0, 'execute_exclusively': False},
+               'benchmark_suites': {'S': {'gauge_adapter': 'RebenchLog', 'command': 'h %(benchmark)s %(invocation)s',
+                                          'benchmarks': ['B%d' % j for j in range(sc['n_bench'])]}},
+               'executors': {'E': {'path': '.', 'executable': 'exe'}},
+               'experiments': {'T': {'suites': ['S'], 'executions': ['E']}}}
+        if sc['env']:
+            cfg['runs']['env'] = dict(sc['env'])
+        conf = drive.write_config(wd, cfg)
+        state = {'k': 0}
+        lock = threading.Lock()
+
+        def script(rec, sc=sc, state=state, lock=lock):
+            with lock:
+                state['k'] += 1
+                k = state['k']
+            o = drive.Outcome(0, 'B: iterations=1 runtime: 5ms\n')
+            o.delay = 0.04 + 0.01 * (k % 3)
+            if sc['path'] == 'interrupt' and k == sc['at']:
+                def fire():
+                    time.sleep(0.015)
+                    os.kill(os.getpid(), signal.SIGINT)     # Ctrl-C: delivered to the main thread
+                threading.Thread(target=fire).start()
+            return o
+        res, events, left = dd.run_parallel_session(wd, [conf], script, sc['report'], cpu_count=sc['cpu_count'],
+                                                    num_cores=sc['num_cores'])
+        ck.impl_traces += 1
+        ending = ending_of(res) if res.exit != 4 else 'crash'
+        inp = dict(sc)
+        ck.count('parallel:%s->%s' % (sc['path'], ending))
+        if left:
+            raise lib.InfraError('worker threads still alive: %s' % left)
+        trace = []
+        for e in events:
+            if e[0] == 'sudo':
+                if e[1] == 'minimize':
+                    trace.append({'t': 'minimize', 'profiling': '--for-profiling' in e[2]})
+                elif e[1] == 'restore':
+                    trace.append({'t': 'restore', 'without_shielding': '--without-shielding' in e[2],
+                                  'without_nice': '--without-nice' in e[2]})
+                elif e[1] == 'kill':
+                    trace.append({'t': 'kill', 'i': e[4] if e[4] is not None else 0})
+            elif e[0] == 'start':
+                trace.append({'t': 'start', 'i': e[1]})
+            elif e[0] == 'stop':
+                trace.append({'t': 'stop', 'i': e[1], 'how': e[2]})
+        sudo = [(e[1], e[2]) for e in events if e[0] == 'sudo']
+        trace_oracle(ck, inp, sc, trace, sudo, ending, sc['num_cores'])
+        if sc['path'] == 'interrupt' and ending != 'interrupt':
+            ck.count('parallel:interrupt-after-all-work')
+        # ---- model: the observed global order of the workers' own events (starts, natural ends) and
+        # the point where the interrupt fell.  A process whose thread was already registered when
+        # the scheduler began to stop may still start (and is then killed); one may end by itself
+        # just before its kill.  Both are worker events; the kills and the ends they cause are the
+        # scheduler's reaction, which the model computes.
+        interrupted = ending == 'interrupt'
+        p = None
+        if interrupted:
+            p = 0
+            for t in trace[1:]:
+                if t['t'] in ('restore', 'kill') or (t['t'] == 'stop' and t.get('how') == 'killed'):
+                    break
+                p += 1
+        own = [{'t': t['t'], 'i': t['i']} for t in trace
+               if t['t'] == 'start' or (t['t'] == 'stop' and t.get('how') != 'killed')]
+        if interrupted:
+            ri = max(i for i, t in enumerate(trace) if t['t'] == 'restore') if any(
+                t['t'] == 'restore' for t in trace) else len(trace)
+            own = [{'t': t['t'], 'i': t['i']} for t in trace[:ri]
+                   if t['t'] == 'start' or (t['t'] == 'stop' and t.get('how') != 'killed')]
+        op = {'op': 'c20.par_session', 'profiling': False, 'report': sc['report'], 'events': own,
+              'ending': ending, 'pinned': False}
+        if interrupted:
+            op['interrupt_at'] = len(own)
+        ops.append(op)
+        recs.append((inp, canon_abort([dict((k, v) for k, v in t.items() if k != 'how') for t in trace], p), ending, p))
+        ck.case(nontrivial_key=('par', json.dumps(sc, sort_keys=True)),
+                sample={'parallel': sc['path'], 'trace': [t['t'] for t in trace]} if _counter[0] % 10 == 0 else None)
+    for (inp, trace, ending, p), ans in zip(recs, ck.model(ops)):
+        if canon_abort(ans.get('trace', []), p) != trace or ans.get('ending') != ending:
+            ck.disagree('c20.par_session: parallel scheduler, sudo calls / process events vs RB.Denoise.parSession',
+                        inp, {'trace': trace, 'ending': ending}, ans, TH_PAR)
+
+
 def gen_scenarios(ck, quick):
     rng = ck.rng
     out = []
@@ -434,7 +732,8 @@ def gen_scenarios(ck, quick):
                 if quick and profiling and rng.random() < 0.5:
                     continue
                 out.append({'kind': 'session', 'report': rep, 'path': path, 'profiling': profiling,
-                            'no_denoise': False, 'env': rng.choice(ENVS), 'cset': rng.choice([None, '/usr/bin/cset']),
+                            'no_denoise': False, 'env': rng.choice(ENVS), 'bench_env': gen_bench_env(rng),
+                            'cset': rng.choice([None, '/usr/bin/cset']),
                             'num_cores': rng.choice([1, 2, 4, 8, 64, 4096]), 'at': rng.choice([1, 2, 3]),
                             'restore': rng.choice(['ok', 'ok', 'fails'])})
     for path in ['plan'] * 4 + (['timeout'] * 6 if not quick else []):
@@ -463,6 +762,12 @@ def dispatch(ck, inputs):
     sess = [i for i in inputs if i['kind'] == 'session']
     for i in range(0, len(sess), 120):
         check_sessions(ck, sess[i:i + 120])
+    dp = [i for i in inputs if i['kind'] == 'denoise_py']
+    for i in range(0, len(dp), 400):
+        check_denoise_py(ck, dp[i:i + 400])
+    pa = [i for i in inputs if i['kind'] == 'parallel']
+    if pa:
+        check_parallel(ck, pa)
     cl = [i for i in inputs if i['kind'] == 'cli']
     if cl:
         check_cli(ck, cl)
@@ -484,10 +789,15 @@ def run(ck):
                '_shield_lower_bound/_shield_upper_bound for every n in 1..4096')
     ck.assumptions = ['sudo and denoise.py are never executed: `subprocess` inside rebench.denoise_client and the Popen of '
                       'the process layer are scripted; what `denoise.py` itself does to the system is out of scope',
-                      'sequential scheduler (with the parallel scheduler an interrupt reaches only the main thread)']
+                      'parallel scheduler: modelled by the observed global order of the worker events and the '
+                      'interrupt position']
     ck.exhaustive = True
     dispatch(ck, load_corpus())
     dispatch(ck, gen_scenarios(ck, quick))
+    dispatch(ck, gen_parallel_scenarios(ck, 16 if quick else 120))
+    dispatch(ck, gen_denoise_py_cases(ck, 300))
+    if not quick:
+        dispatch(ck, gen_denoise_py_cases(ck, 0, exhaustive=True))
     check_shield(ck, 4096)
     if not quick:
         for _ in range(3):
